@@ -227,7 +227,8 @@ def run_c19(repo, tier, seed, only=None):
             b = ay.Builder()
             b.add_source(text, raw_yaml=True, filename='mem.yaml', safe=rng.random() < 0.8)
             tree = b.stages[0]
-        except Exception:
+        except Exception as e:
+            R.skip(text, e)
             continue
         R.case(text, {'doc': text})
         try:
@@ -293,7 +294,8 @@ def run_c18(repo, tier, seed, only=None):
             text = only
         try:
             t1 = list(ayyaml.parse(text))[0]
-        except Exception:
+        except Exception as e:
+            R.skip(text, e)
             continue
         if t1 is None:
             continue
